@@ -22,7 +22,8 @@ GNextThorough == GStatement(GenCfgsThorough) \/ (status # "parse" /\ Next)
 
 \* ledgers for the replay (x 156 statements each in the quick grid, x 254 in the thorough one)
 GenLedgersQuick ==
-    LedgersOf(0, {2}, AllT) \cup LedgersOf(1, {3}, AllT) \cup LedgersOf(2, {2, 4}, {1, 4, 9})
+    LedgersOf(0, {2}, AllT) \cup LedgersOf(1, {3}, AllT)
+      \cup { l \in LedgersOf(2, {2, 4}, {1, 4, 9}) : l[1].date < l[2].date \/ l[1].ps # l[2].ps }
       \cup { l \in LedgersOf(3, 2..4, {1, 4, 5, 6, 3}) :
                l[1].date = 2 /\ l[3].date = 4 /\ <<l[1].ps, l[2].ps, l[3].ps>> \in
                   { <<Templates[1], Templates[4], Templates[6]>>, <<Templates[5], Templates[6], Templates[3]>>,
